@@ -92,6 +92,10 @@ func vxMap(name string) map[int]int {
 	case "compress":
 		// sparse, compressing user map whose outputs coincide with other keys (value 50 is also the key 50, ...)
 		m = map[int]int{0: 0, 50: 25, 100: 50, 150: 75, 200: 100, 255: 128}
+	case "splateau":
+		// sparse user map with redundant keys INSIDE plateaus (100 repeats the output of 0, 200 that of 128): those keys are
+		// not supported inputs, a request that hits one of them exactly must still go to the nearest supported input
+		m = map[int]int{0: 0, 100: 0, 128: 128, 200: 128, 255: 255}
 	case "plateau":
 		for i := 0; i <= 255; i++ {
 			switch {
@@ -128,13 +132,14 @@ func vxLoop(algo string) control_loop.ControlLoop {
 }
 
 type vxFix struct {
-	cfg   vxCfg
-	fs    *env.FS
-	dev   *env.Dev
-	fan   fans.Fan
-	ctl   *DefaultFanController
-	curve *vxCurve
-	pmap  map[int]int
+	lowest map[int]int // cache of vxLowestWriteFor
+	cfg    vxCfg
+	fs     *env.FS
+	dev    *env.Dev
+	fan    fans.Fan
+	ctl    *DefaultFanController
+	curve  *vxCurve
+	pmap   map[int]int
 	// cmd fans: state directory holding pwm / rpm / mode files read by the scripts
 	cmdDir string
 }
